@@ -846,7 +846,7 @@ impl Prop for ExplainProp {
         "Every multiset of union/insert operations of the stated depth over the stated alphabets (incl. 3-cycles on a 3-slot leaf, all 23 permutations on a 4-slot leaf, redundancy, self-reference, binders), every distinct ordering (and the all-flipped orientation), is executed with union_justified and a distinct label per asserted equation, in the `explanations` build (thorough: also with the crate's internal checks). For EVERY pair of tracked (sub)terms and relative naming that the ground congruence closure says is equal, explain_equivalence must return; an independent checker that works on terms (get_syn_expr of both sides of every ProvenEqRaw::equ) walks the proof DAG once: reflexivity (alpha-equal sides), symmetry (flip up to renaming), transitivity (renamings injective on each side of each premise that agree on the middle term), congruence (same operator and slot arguments, binders renamed alike, children match premises position-wise), explicit leaves (instance of the user's equation with that label), and the root concludes the queried equation up to injective renaming. Non-trivial = number of proof steps checked.".into()
     }
     fn assumptions(&self) -> Vec<String> {
-        vec!["only justified unions are driven (rule applications are covered through union_instantiations by C03/C15 without proof checking)".into(), "histories that panic while being built are counted as aborted here (C08 owns them)".into()]
+        vec!["leaves are justified unions and single-rule applications (a rule leaf is checked to be an instance of the named rule)".into(), "histories that panic while being built are reported as no-answer failures, except in the extra checks_expl configuration where they are only counted (DESIGN §7, D9)".into()]
     }
     fn describe(&self, tier: Tier, _cfg: &str, seg: usize, idx: u64) -> Value {
         let segs = self.segs(tier);
